@@ -5,13 +5,22 @@
 (*   vin[i]  id of the visible text of input line i (escape sequences removed)              *)
 (*   vout[j] id of the visible text of output row j                                         *)
 (*   over    which presets of the mode the user explicitly overrode                         *)
+(*   lines   the history as [c, f, g, kd] records; plain = no option beside --color-only    *)
 (* LineForLine holds whatever else is configured; TextSame unless an override applies to    *)
 (* the line's class (marker removal, a tab width, an omit style, a line-number gutter).     *)
 EXTENDS Naturals, Sequences, FiniteSets, TLC, Json, IOUtils
 
 Rec == ndJsonDeserialize(IOEnv.TRACE)
-VARIABLES l, failed
-vars == <<l, failed>>
+VARIABLES l, failed, drift
+vars == <<l, failed, drift>>
+
+\* the implementation-shaped model in color-only mode, run on the same history (drift report, never a verdict):
+\* does it write one row per input line, in order - and does the binary?
+IS == INSTANCE Impl_Stream WITH Buf <- 32, ColorOnly <- TRUE, Fixes <- {"D1", "D14", "D2", "D18", "D19", "D20", "D21", "D23"}
+RECURSIVE ImplRun(_, _, _)
+ImplRun(h, st, k) == IF k > Len(h) THEN st ELSE ImplRun(h, IS!Step(st, k, h[k]), k + 1)
+ModelLineForLine(e) == LET w == IS!Finish(ImplRun(e.lines, IS!InitS, 1)).w IN [i \in DOMAIN w |-> w[i].k] = [k \in 1..Len(e.lines) |-> k]
+Drifts(e) == e.code = 0 /\ (ModelLineForLine(e) # (Len(e.vout) = Len(e.vin)))
 
 Body == {"minus", "plus", "zero", "cin", "m_ours", "m_anc", "m_theirs", "m_end",   \* (in this mode conflict markers are hunk lines)
          "minus3", "plus3",          \* hunk lines of a diff -u stream whose text looks like a header ("--- x", "+++ x")
@@ -35,11 +44,12 @@ Judge(e) ==
        IF bad = {} THEN [why |-> "", at |-> 0]
        ELSE [why |-> "text", at |-> CHOOSE i \in bad : \A j \in bad : i <= j]
 
-Init == l = 1 /\ failed = <<>>
+Init == l = 1 /\ failed = <<>> /\ drift = <<>>
 Next == /\ l <= Len(Rec)
         /\ l' = l + 1
         /\ LET e == Rec[l] v == Judge(e) IN
-             failed' = IF v.why = "" THEN failed ELSE Append(failed, [run |-> e.run] @@ v)
+             /\ failed' = IF v.why = "" THEN failed ELSE Append(failed, [run |-> e.run] @@ v)
+             /\ drift' = IF Drifts(e) THEN Append(drift, e.run) ELSE drift
 Spec == Init /\ [][Next]_vars
-Done == l <= Len(Rec) \/ PrintT(<<"VERDICT", ToJson(failed)>>)
+Done == l <= Len(Rec) \/ (PrintT(<<"DRIFT", ToJson(drift)>>) /\ PrintT(<<"VERDICT", ToJson(failed)>>))
 =============================================================================
